@@ -18,6 +18,12 @@ def allEqual : List String → Bool
 def allEqualN (n : Nat) (xs : List String) : Bool :=
   decide (2 ≤ n) && xs.length == n && allEqual xs
 
+/-- An epoch end as the state shows it (epochs BeginBlocker → `EndEpoch`): the counter goes up by one and the new
+    start time is the old start time plus the duration — a function of the stored epoch alone, whatever the clock of
+    the executing node says and however long ago the block was produced. -/
+def epochEndOK (oldStart duration newStart oldCurrent newCurrent : Int) : Bool :=
+  newStart == oldStart + duration && newCurrent == oldCurrent + 1
+
 /-- how a map-range site is covered -/
 inductive Cover where
   /-- by the named order-independence theorem of `Sif.Props.C09` -/
@@ -81,6 +87,12 @@ def allowedUses : List (UseSite × String) := [
   ({ pkg := "app", fn := "NewSifAppWithBlacklist", kind := "float", n := 1 }, "passes the constant DefaultConsensusNeeded to the oracle keeper"),
   ({ pkg := "x/admin/types", fn := "<package-level>", kind := "math.Inf", n := 3 }, "protobuf-generated `var _ = math.Inf`"),
   ({ pkg := "x/clp", fn := "BeginBlocker", kind := "time", n := 1 }, "telemetry only (ModuleMeasureSince)"),
+  -- where each wall-clock value flows (time.flow:<consumers>): telemetry, or the log line of MeasureBlockTime
+  ({ pkg := "x/clp", fn := "BeginBlocker", kind := "time.flow:telemetry", n := 1 }, "passed straight to telemetry.ModuleMeasureSince"),
+  ({ pkg := "x/clp", fn := "EndBlocker", kind := "time.flow:telemetry", n := 1 }, "passed straight to telemetry.ModuleMeasureSince"),
+  ({ pkg := "x/clp", fn := "MeasureBlockTime", kind := "time.flow:var now -> addr-taken,addr-taken,method-Sub", n := 1 },
+   "kept in the package variable blockTime (audited in auditedPkgVars) and subtracted for the `Block took …s` log line"),
+  ({ pkg := "x/epochs/keeper", fn := "Keeper.BeginBlocker", kind := "time.flow:telemetry", n := 1 }, "passed straight to telemetry.ModuleMeasureSince"),
   ({ pkg := "x/clp", fn := "EndBlocker", kind := "time", n := 1 }, "telemetry only (ModuleMeasureSince)"),
   ({ pkg := "x/clp", fn := "ExportGenesis", kind := "math.MaxUint64", n := 2 }, "integer constant (pagination limit)"),
   ({ pkg := "x/clp", fn := "MeasureBlockTime", kind := "float", n := 1 }, "logging only (elapsed.Seconds())"),
